@@ -441,8 +441,12 @@ func addBlockReq(run *lib.Run, c jcase) {
 		fmt.Sprintf("blockreq/%d/%s/%v/%v", c.Base, c.Mut.coq(), c.Indexing, c.Ingest))
 	if r.obs == 0 {
 		// well-formed reads of what was just accepted
-		for _, u := range []string{"/lm/raw/0_1_2/16_16_16/48_0_0", "/lm/label/50_3_3", "/lm/blocks/16_16_16/48_0_0"} {
-			f := jcase{Name: "read after accepted block", Fam: 12, Expect: eWell, Main: &step{"GET", u, nil},
+		for _, u := range []string{"/lm/raw/0_1_2/16_16_16/48_0_0", "/lm/label/50_3_3", "/lm/blocks/16_16_16/48_0_0", "/lm/labels"} {
+			var body []byte
+			if u == "/lm/labels" {
+				body = []byte(`[[57,1,1],[49,1,1],[63,7,7]]`) // GetPointLabels in both sub-blocks along x
+			}
+			f := jcase{Name: "read after accepted block", Fam: 12, Expect: eWell, Main: &step{"GET", u, body},
 				Pre: []step{main}}
 			rr := srv.runScript(nil, *f.Main, nil)
 			run.Count(fmt.Sprintf("req:follow-up:well-formed:%s", obsNames[rr.obs]))
